@@ -603,7 +603,9 @@ fn handle(line: &str) -> R {
 }
 
 fn main() {
-    std::panic::set_hook(Box::new(|_| {}));
+    if std::env::var("GS_VERBOSE").is_err() {
+        std::panic::set_hook(Box::new(|_| {}));
+    }
     pyo3::prepare_freethreaded_python();
     let stdin = std::io::stdin();
     let stdout = std::io::stdout();
